@@ -338,6 +338,12 @@ def run(ck):
     seeds = os.path.join(ck.work, "seeds.ndjson")
     ck.run_vh(["drive", "C08", "-part", "seeds", "-out", seeds, "-tier", ck.tier, "-seed", ck.seed])
     srows = [l for l in open(seeds).read().splitlines() if '"k":"End"' not in l]
+    # message bodies with optional references must be among the seeds with those references present, bare and behind their op code
+    opt = [json.loads(l) for l in srows if '"optrefs"' in l]
+    opt_types = sorted({o["type"] for o in opt})
+    if len(opt_types) < 10 or "abi.JettonTransferMsgBody" not in opt_types or sum(1 for o in opt if o["type"] == "abi.InMsgBody") < 5:
+        raise Infra("seeds lack abi message bodies with their optional references present: %s" % opt_types)
+    ck.extra["abi_bodies_with_optional_refs"] = {"bare_types": len(opt_types) - 1, "behind_op_code": sum(1 for o in opt if o["type"] == "abi.InMsgBody")}
     # the well-formed tuples are seeds of the mutation classes like recorded encodings (as a value and on a stack)
     wfs = [v for v in tuples if v["wf"] and 2 <= len(v["cells"]) <= 12]
     step = max(1, len(wfs) // (60 if ck.thorough else 16))
@@ -360,6 +366,11 @@ def run(ck):
     if len(muts) < 10 * len(srows) or len(classes) < 12:
         raise Infra("Decode_Gen wrote only %d bags in %d classes" % (len(muts), len(classes)))
     ck.extra["spec_bags"] = {"seeds": len(srows), "bags": len(muts), "classes": classes}
+    optseeds = {o["seed"] for o in opt}
+    nref = sum(1 for m in muts if m["seed"] in optseeds and m["class"] in ("drop_last_ref", "drop_first_ref", "drop_all_refs"))
+    if nref < 3 * len(optseeds) // 2:
+        raise Infra("reference-removal classes ran on only %d mutants of the %d message-body seeds" % (nref, len(optseeds)))
+    ck.extra["abi_bodies_with_optional_refs"]["reference_removal_mutants"] = nref
     mp = os.path.join(ck.work, "mutants.ndjson")
     vlib.write_ndjson(mp, muts)
     ck.sample({"direction": "S->C", "bag": muts[len(muts) // 2]})
